@@ -371,7 +371,7 @@ theorem fp_string_of_split_eq (puny : Str → Str) (trie : SNode Str) (ss : Bool
 theorem fp_split_of_norm (puny : Str → Str) (trie : SNode Str) (ss : Bool) (x : Str) (X : Split)
     (hl : lower x = x)
     (h : normalizeUrlStringSplit puny id fpOpts true x = .inr X) :
-    fingerprintUrlStringSplit puny id trie ss x = fpParts (stringEnv puny id trie) ss X := by
+    fingerprintUrlStringSplit puny id trie ss x = (fpParts (stringEnv puny id trie) ss X).map .inr := by
   rw [fingerprintUrlStringSplit_eq]
   unfold fingerprintUrlSplit
   have e : normalizeUrlSplit (stringEnv puny id trie).puny (stringEnv puny id trie).parse
@@ -437,7 +437,7 @@ theorem fingerprint_canonicalize_string_partial (puny : Str → Str) (hp : PunyL
     rw [hLp.1, hLp'.1] at key
     have e : fingerprintUrlStringSplit puny id trie ss r = fingerprintUrlStringSplit puny id trie ss u := by
       rw [fp_split_of_norm puny trie ss r _ hlr c1, fp_split_of_norm puny trie ss u _ hlu hu]
-      exact key
+      exact congrArg (Except.map Sum.inr) key
     exact ⟨e, fp_string_of_split_eq puny trie ss r u e⟩
 
 /-- **(b) on STRINGS**: two lower-case strings of the class with the same normalized tuple
@@ -482,7 +482,7 @@ theorem fingerprint_of_normalize_eq_string_partial (puny : Str → Str) (trie : 
           (g₂.record po₂) (hL₁ po₁ hpo₁) (hL₂ po₂ hpo₂) g₁.proto.hasProto g₂.proto.hasProto
           g₁.proto.hasProto g₂.proto.hasProto h
         rw [(hL₁ po₁ hpo₁).1, (hL₂ po₂ hpo₂).1] at k
-        exact k
+        exact congrArg (Except.map Sum.inr) k
   exact ⟨key, fp_string_of_split_eq puny trie ss u v key⟩
 
 /-- non-vacuity of (c2) / (b) on strings: a lower-case URL with `www.`, an index file, a `gl`
